@@ -36,9 +36,13 @@ CLAIMED.update({
          "Seeded search over inbound frame scripts x recipients (live, dead, never existing, registered/unregistered names, outstanding rpc) x tick period x network behaviour x fatal event x reconnect. Oracle: per-recipient delivered sequence equals the script's expectation exactly (fields intact, order, exactly once); at every checkpoint before a fatal event the connection is registered and a probe rpc gets through; after a fatal event it is deregistered within a bound; reconnect works. Sampling, not proof.",
          "Trusted: tokio paused clock/scheduler, the peer script and its independent encoder; mid-frame delays are kept below the read timeout.",
          "DESIGN.md section 3, C19"),
+ "C07": ("deterministic simulation: 1..6 tasks send through one real Node/Connection over a simulated socket whose writes are short and stall between the partial writes of a frame; an independent protocol reader on the peer end parses the byte stream; write-error and peer-close faults",
+         "Seeded search over (operation sequences with seeded arguments, both framing modes, task count, write perturbation, optional fault). Oracle from the peer's independent reader: the stream is a sequence of whole frames in the negotiated mode; frames and operations that returned Ok are in bijection; each frame carries the protocol's control tuple for the operation and exactly the given payload; per task, frames appear in issue order; operations before the handshake write nothing. Sampling, not proof.",
+         "Trusted: tokio, the simulator's independent frame/header/term reader (written from the protocol documents), payload sub-space of DESIGN 2.4.",
+         "DESIGN.md section 3, C07"),
 })
 
-PENDING = {k: 'check under construction in this session (simulation applies; see DESIGN.md); not claimed yet' for k in ['C06','C07','C09','C14','C16','C18']}
+PENDING = {k: 'check under construction in this session (simulation applies; see DESIGN.md); not claimed yet' for k in ['C06','C09','C14','C16','C18']}
 
 def main():
     hooks = subprocess.run(["git","-C","/repo","log","--format=%H %s","--grep=^verif hook"],capture_output=True,text=True).stdout.strip().splitlines()
